@@ -107,9 +107,9 @@ def int_limit_cases():
 
 def deep_cases():
     """bracket nesting far beyond what programs use: search-only (the depth at which CPython's recursion limit is
-    hit depends on the caller's stack, so it is not modelled)"""
+    hit - reported as a parse error since F21 - depends on the caller's stack, so it is not modelled)"""
     out = []
-    for d in (200, 1000, 1200, 1500):
+    for d in (200, 600, 1000, 1200, 1500, 5000):
         out.append("RETURN = " + "[" * d + "]" * d + ";")
         out.append("RETURN = " + "[1, " * d + "2" + "]" * d + ";")
         out.append("RETURN = " + '{"a": ' * d + "1" + "}" * d + ";")
@@ -133,7 +133,7 @@ class C17(Prop):
     ]
     ASSUMPTIONS = [
         "ASCII input: Python's isdigit/isalpha/strip are Unicode-aware, the model is ASCII; non-ASCII text is a search-only stream (oracle on the real code, no model)",
-        "bracket nesting depth <= 150: deeper text can exhaust CPython's recursion limit (RecursionError, depth depends on the caller's stack) - open finding interpreter-recursion-limit, searched on the real code only",
+        "bracket nesting depth <= 150: deeper text can exhaust CPython's recursion limit, which query() reports as a parse error since the repair F21 (the depth at which that happens depends on the caller's stack; the model has no depth limit) - deeper text is a search-only stream: the oracle runs on the real code, no model answer is compared",
         "CPython's int() limit of 4300 digits (sys.get_int_max_str_digits() default) is a parameter of the model (maxIntDigits): a longer integer literal is a parse error",
         "builtins do not mutate the namespace dict they are handed",
     ]
@@ -185,8 +185,12 @@ class C17(Prop):
             out.append(("real-builtins", {"k": "real", "text": t, "want": want}))
         for c in int_limit_cases():
             out.append(("int-limit", c))
+        rng = ctx.rng("c17deep")
         for c in deep_cases():
             out.append(("deep-nesting", c))
+            for _ in range(ctx.pick(2, 20)):
+                # the same with a character deleted / duplicated / swapped / inserted somewhere
+                out.append(("deep-nesting", {**c, "text": Q.corrupt(rng, c["text"], 1)}))
         # the same queries repeated on one store while buckets are deleted and re-created: an unknown bucket is a
         # function error every time, whatever was looked up before
         rng = ctx.rng("c17seq")
@@ -349,9 +353,7 @@ class C17(Prop):
         return impl_out == model_out
 
     def scope(self, case, out):
-        """open finding `interpreter-recursion-limit`: bracket nesting depth of the text exceeds 150"""
-        if isinstance(case, dict) and isinstance(case.get("text"), str) and Q.bracket_depth(case["text"]) > Q.MAX_DEPTH:
-            return "interpreter-recursion-limit"
+        """no open finding (the RecursionError of deeply nested text was repaired: F21)"""
         return None
 
     # ---- the property --------------------------------------------------------------------------
